@@ -40,9 +40,9 @@ def pipe_job(j):
     text = j[0]
     recs = []
     for b in gasol.parse_plain(text):
-        t0 = time.time()
+        t0 = time.process_time()          # CPU time of this worker: machine load must not turn into a finding
         res = gasol.optimize_one(b)
-        dt = time.time() - t0
+        dt = time.process_time() - t0
         n = len(b.instructions)
         rec = {"text": text, "secs": round(dt, 2), "bad": None}
         if res["error"]:
